@@ -45,7 +45,13 @@ pub enum FaultKind {
     Error,
     /// a read returns Ok(0) although bytes remain (premature EOF); a seek fails with an error
     Eof,
+    /// the call returns Err(ErrorKind::Interrupted): std's convention is that the operation may be retried, so a
+    /// caller (or `read_exact` on its behalf) may legitimately carry on and succeed — with the right bytes
+    Interrupted,
 }
+
+/// the error kinds an `Error` fault cycles through (by I/O call index)
+const ERROR_KINDS: [ErrorKind; 5] = [ErrorKind::Other, ErrorKind::UnexpectedEof, ErrorKind::WouldBlock, ErrorKind::TimedOut, ErrorKind::InvalidData];
 
 #[derive(Clone, Copy, Debug)]
 pub struct Fault {
@@ -76,6 +82,8 @@ pub struct IoState {
     pub rng: Rng,
     /// indices of I/O calls at which a fault actually fired, with the api tag
     pub fired: Vec<(u32, u32)>,
+    /// the same for `Interrupted` faults (which a caller may retry)
+    pub fired_soft: Vec<(u32, u32)>,
     /// consecutive interrupts delivered (bounded so that a retry loop always makes progress)
     consecutive_interrupts: u32,
     pub interrupts: u64,
@@ -102,6 +110,7 @@ pub fn new_reader(data: Rc<Vec<u8>>, policy: Policy, seed: u64) -> (MonReader, H
         policy,
         rng: Rng::new(seed),
         fired: Vec::with_capacity(64),
+        fired_soft: Vec::new(),
         consecutive_interrupts: 0,
         interrupts: 0,
         short_reads: 0,
@@ -122,6 +131,9 @@ impl Handle {
     pub fn fired(&self) -> Vec<(u32, u32)> {
         self.0.borrow().fired.clone()
     }
+    pub fn fired_soft(&self) -> Vec<(u32, u32)> {
+        self.0.borrow().fired_soft.clone()
+    }
     pub fn stats(&self) -> (u64, u64, u64) {
         let s = self.0.borrow();
         (s.interrupts, s.short_reads, s.log_dropped)
@@ -139,7 +151,7 @@ impl IoState {
     /// which fault (if any) applies to the I/O call with index `call`
     fn fault_for(&self, call: u32) -> Option<FaultKind> {
         for f in &self.policy.faults {
-            if f.at_call == call || (f.permanent && call >= f.at_call) {
+            if f.at_call == call || (f.permanent && f.kind != FaultKind::Interrupted && call >= f.at_call) {
                 return Some(f.kind);
             }
         }
@@ -156,17 +168,23 @@ impl Read for MonReader {
         let api = s.api;
         let req = buf.len() as u64;
         if let Some(fk) = s.fault_for(call) {
-            if s.fired.len() < 64 {
+            if fk == FaultKind::Interrupted {
+                if s.fired_soft.len() < 64 {
+                    s.fired_soft.push((call, api));
+                }
+            } else if s.fired.len() < 64 {
                 s.fired.push((call, api));
             }
             let outcome = match fk {
                 FaultKind::Error => Outcome::FaultError,
                 FaultKind::Eof => Outcome::FaultEof,
+                FaultKind::Interrupted => Outcome::Interrupted,
             };
             s.push(IoEvent { call, api, kind: IoKind::Read, pos, req, outcome });
             return match fk {
-                FaultKind::Error => Err(Error::new(ErrorKind::Other, "injected read fault")),
+                FaultKind::Error => Err(Error::new(ERROR_KINDS[call as usize % ERROR_KINDS.len()], "injected read fault")),
                 FaultKind::Eof => Ok(0),
+                FaultKind::Interrupted => Err(Error::new(ErrorKind::Interrupted, "injected interrupt")),
             };
         }
         // legal awkwardness: Interrupted (at most 3 in a row, so retry loops terminate)
@@ -215,12 +233,19 @@ impl Seek for MonReader {
             SeekFrom::End(off) => (len as i128 + off as i128).try_into().ok(),
             SeekFrom::Current(off) => (pos as i128 + off as i128).try_into().ok(),
         };
-        if s.fault_for(call).is_some() {
+        if let Some(fk) = s.fault_for(call) {
+            if fk == FaultKind::Interrupted {
+                if s.fired_soft.len() < 64 {
+                    s.fired_soft.push((call, api));
+                }
+                s.push(IoEvent { call, api, kind: IoKind::Seek, pos, req: target.unwrap_or(u64::MAX), outcome: Outcome::Interrupted });
+                return Err(Error::new(ErrorKind::Interrupted, "injected interrupt (seek)"));
+            }
             if s.fired.len() < 64 {
                 s.fired.push((call, api));
             }
             s.push(IoEvent { call, api, kind: IoKind::Seek, pos, req: target.unwrap_or(u64::MAX), outcome: Outcome::FaultError });
-            return Err(Error::new(ErrorKind::Other, "injected seek fault"));
+            return Err(Error::new(ERROR_KINDS[call as usize % ERROR_KINDS.len()], "injected seek fault"));
         }
         match target {
             Some(t) => {
